@@ -157,7 +157,11 @@ func buildStreams(r *ev.Run) []*streamInfo {
 	for i, sp := range streamSpecs[:n] {
 		e, err := encodeStream(sp.c, sp.phase, false, sp.lens)
 		if err != nil {
-			ev.Fatal("stream %d: %v", i, err)
+			// a valid frame could not be written: a fidelity violation; the stream is left out
+			r.Violate("C07/fidelity/write-error:"+normalize(err.Error()), fmt.Sprintf("Encoder.Write failed on a valid frame (columns %s, batches %v): %v", sp.c, sp.lens, err),
+				map[string]interface{}{"columns": sp.c.String(), "batch_lengths": sp.lens, "phase": sp.phase})
+			out = append(out, &streamInfo{idx: i, spec: sp})
+			continue
 		}
 		if len(e.data) > 150 {
 			ev.Fatal("stream %d (%s %v) is %d bytes > 150", i, sp.c, sp.lens, len(e.data))
@@ -206,6 +210,9 @@ func enumCases(streams []*streamInfo) []ccase {
 		}
 	}
 	for _, s := range streams {
+		if s.e == nil {
+			continue
+		}
 		L := len(s.e.data)
 		add(s, damage{Kind: "none"})
 		for cut := 0; cut < L; cut++ {
